@@ -30,6 +30,11 @@ def parseCacheOp (t : List String) : Option COp :=
       let x ← parseAct a1
       let y ← parseAct a2
       some (.compute k (fun o => match o with | some _ => x | none => y) (← d.toInt?))
+  | ["getorcomputeslow", k, v, d, δ] => do some (.getOrComputeSlow k (← parseVal v) (← d.toInt?) (← δ.toNat?))
+  | ["computeslow", k, a1, a2, d, δ] => do
+      let x ← parseAct a1
+      let y ← parseAct a2
+      some (.computeSlow k (fun o => match o with | some _ => x | none => y) (← d.toInt?) (← δ.toNat?))
   | ["getanddelete", k] => some (.getAndDelete k)
   | ["delete", k] => some (.delete k)
   | ["deleteexpired"] => some .deleteExpired
